@@ -77,11 +77,11 @@ class Ctx:
 
 
 def load_findings(pid):
-    p = os.path.join(ROOT, 'known_findings.json')
+    p = os.path.join(ROOT, 'findings', pid + '.json')
     if not os.path.exists(p):
         return []
     data = json.load(open(p))
-    return [f for f in data.get('findings', []) if f.get('property') == pid and 'fixed' not in f]
+    return [f for f in data.get('findings', []) if f.get('property', pid) == pid and 'fixed' not in f]
 
 
 def write_json(path, obj):
